@@ -103,6 +103,14 @@ WITNESSES = [
     ("a carbon-free formula in alphabetical order", "Cl Na /"),
     ("counts above nine and indices above nine", "C 10 H 22 / ( 1 - 23 ) ( 11 - 32 )"),
     ("a radical only", "C H 3 / ( 1 - 4 ) ( 2 - 4 ) ( 3 - 4 ) / ( 4 : rad = 2 )"),
+    # every place of the formula with the counts 1, 2 and above nine
+    ("one hydrogen next to carbon, another element three times", "C H Cl 3 / ( 1 - 2 ) ( 2 - 3 ) ( 2 - 4 ) ( 2 - 5 )"),
+    ("two carbons, two hydrogens", "C 2 H 2 / ( 1 - 3 ) ( 2 - 4 ) ( 3 - 4 )"),
+    ("two hydrogens next to one carbon, one atom of another element", "C H 2 O / ( 1 - 3 ) ( 2 - 3 ) ( 3 - 4 )"),
+    ("another element above nine next to carbon", "C 4 F 10 / ( 1 - 2 ) ( 2 - 3 ) ( 3 - 4 )"),
+    ("hydrogen without carbon, in alphabetical place, counts above nine", "B 10 H 14 / ( 1 - 2 )"),
+    ("two hydrogens without carbon, one atom after them", "H 2 O / ( 1 - 3 ) ( 2 - 3 )"),
+    ("one element twice", "Cl 2 / ( 1 - 2 )"),
 ]
 
 
